@@ -331,9 +331,16 @@ func zrun(f func()) (res string) {
 			if cls == "plain" {
 				cls = zstrClass(v.Error())
 			}
+			if cls == "reflect" || cls == "runtime" { // reflect panics with strings and *ValueError alike
+				chain, walk = cls, cls
+			}
 			res = fmt.Sprintf("rej:%s chain=%s walk=%s", cls, chain, walk)
 		case string:
-			res = fmt.Sprintf("rej:%s chain=str walk=str", zstrClass(v))
+			if c := zstrClass(v); c == "reflect" {
+				res = "rej:reflect chain=reflect walk=reflect"
+			} else {
+				res = fmt.Sprintf("rej:%s chain=str walk=str", c)
+			}
 		default:
 			res = fmt.Sprintf("rej:other chain=%T walk=%T", r, r)
 		}
@@ -387,38 +394,42 @@ func zbehave(fn reflect.Value, s zsig, stub []string) (res string) {
 		}
 	}()
 	zcbHits = 0
+	zSinkMoved()
 	var out []reflect.Value
 	if s.variadic {
 		out = fn.CallSlice(s.callArgs())
 	} else {
 		out = fn.Call(s.callArgs())
 	}
+	ran := zSinkMoved() // every generated target body calls ztouch
 	if zcbHits > 0 {
 		return "cb"
 	}
-	isOrig, isStub := true, stub != nil && len(stub) == len(out)
+	if ran {
+		for i, o := range out {
+			if !zeq(o.Interface(), ztypes[s.outs[i]].orig) {
+				return "other"
+			}
+		}
+		return "orig"
+	}
+	// neither the body nor a callback ran: results come from a stub; compare where the configured value has the slot's type
 	for i, o := range out {
-		if !zeq(o.Interface(), ztypes[s.outs[i]].orig) {
-			isOrig = false
+		if stub == nil || len(stub) != len(out) {
+			return "other"
 		}
-		if isStub && stub[i] != "nil" && !zeq(o.Interface(), zvalue(stub[i])) {
-			isStub = false
+		if stub[i] == "nil" {
+			if !o.IsZero() {
+				return "other"
+			}
+			continue
 		}
-		if isStub && stub[i] == "nil" && !o.IsZero() {
-			isStub = false
+		want := zvalue(stub[i])
+		if reflect.TypeOf(want) == o.Type() && !zeq(o.Interface(), want) {
+			return "other"
 		}
 	}
-	switch {
-	case isOrig && len(out) > 0:
-		return "orig"
-	case isOrig && zSinkMoved():
-		return "orig"
-	case isStub:
-		return "stub"
-	case len(out) == 0:
-		return "stub" // a result-less target that neither ran its body nor a callback: the empty stub
-	}
-	return "other"
+	return "stub"
 }
 
 var zsinkSeen int
@@ -509,6 +520,10 @@ func zcheckSig(ft reflect.Type, s zsig) bool {
 	return true
 }
 
+// zmid, when set, is called between the two calls of `When(..).Return(..)`: the second call is judged against the
+// state the first (accepted) call left.
+var zmid func()
+
 // zaction performs the configuration call on mocker m.
 func zaction(m ExportedMocker, act []string) (stub []string) {
 	switch act[0] {
@@ -521,6 +536,9 @@ func zaction(m ExportedMocker, act []string) (stub []string) {
 		m.Return(zvalues(act[1])...)
 	case "when":
 		w := m.When(zvalues(act[1])...)
+		if zmid != nil {
+			zmid()
+		}
 		if len(act) > 2 && act[2] == "return" {
 			stub = ztoks(act[3])
 			w.Return(zvalues(act[3])...)
@@ -554,6 +572,10 @@ func zfuncOp(t []string) string {
 	b := Create()
 	var stub []string
 	var tramp uintptr
+	var midBefore string
+	var midSnap []byte
+	zmid = func() { midBefore = zbehave(fv, sig, nil); midSnap = zsnap() }
+	defer func() { zmid = nil }()
 	res := zrun(func() {
 		m := ExportedMocker(b.Func(fn))
 		if t[5] != "none" {
@@ -563,7 +585,16 @@ func zfuncOp(t []string) string {
 		}
 		stub = zaction(m, t[6:])
 	})
+	if midSnap != nil && strings.HasPrefix(res, "rej:") { // the rejected call is the Return() that followed an accepted When()
+		before, snap1 = midBefore, midSnap
+	}
 	d := zdiff(snap1, entry, tramp)
+	if strings.HasPrefix(res, "ok") { // what an ACCEPTED Origin() call writes into its placeholder is C03's subject
+		d = strings.TrimSuffix(strings.TrimSuffix(d, "tramp"), "+")
+		if d == "" {
+			d = "none"
+		}
+	}
 	beh := zbehave(fv, sig, stub)
 	reg := patch.ZZC13Reg(entry)
 	b.Reset()
@@ -616,11 +647,15 @@ func znonfuncOp(t []string) string {
 }
 
 func zmethodOp(t []string) string {
-	// method <name> <ins (with receiver)> <outs> <var> <action...>  -- Struct(&ZRcv{}).Method(name).<action>
+	// method <name> <found> <ins (with receiver)> <outs> <var> <action...>  -- Struct(&ZRcv{}).Method(name).<action>
 	name := t[0]
 	if name == "-" {
 		name = ""
 	}
+	if _, ok := reflect.TypeOf(&ZRcv{}).MethodByName(name); ok != (t[1] == "1") {
+		return "zoo-mismatch"
+	}
+	t = append([]string{t[0]}, t[2:]...)
 	sig := zparseSig(t[1], t[2], t[3])
 	snap := zsnap()
 	n0 := patch.ZZC13RegLen()
@@ -635,8 +670,14 @@ func zmethodOp(t []string) string {
 	}
 	b := Create()
 	var stub []string
+	var midSnap []byte
+	zmid = func() { midSnap = zsnap() }
+	defer func() { zmid = nil }()
 	res := zrun(func() { stub = zaction(b.Struct(&ZRcv{}).Method(name), t[4:]) })
 	d := zdiff(snap, entry, 0)
+	if midSnap != nil && strings.HasPrefix(res, "rej:") {
+		d = zdiff(midSnap, entry, 0)
+	}
 	beh, reg, after := "-", "-", "-"
 	if fv.IsValid() {
 		beh = zbehave(fv, sig, stub)
@@ -701,12 +742,16 @@ func zexportOp(t []string) string {
 }
 
 func zifaceOp(t []string) string {
-	// iface <varkind> <method> <mins> <mouts> apply <cbIns> <cbOuts>
-	// iface <varkind> <method> <mins> <mouts> as <cbIns> <cbOuts> (return <vals> | when <args> return <vals>)
+	// iface <varkind> <method> <found> <mins> <mouts> apply <cbIns> <cbOuts> | applyval <tok>
+	// iface <varkind> <method> <found> <mins> <mouts> as <cbIns> <cbOuts> (return <vals> | when <args> [return <vals>])
 	name := t[1]
 	if name == "-" {
 		name = ""
 	}
+	if _, ok := reflect.TypeOf((*ZIfc)(nil)).Elem().MethodByName(name); ok != (t[2] == "1") {
+		return "zoo-mismatch"
+	}
+	t = append([]string{t[0], t[1]}, t[3:]...)
 	msig := zparseSig(t[2], t[3], "0")
 	var iv ZIfc
 	var target interface{}
@@ -734,6 +779,10 @@ func zifaceOp(t []string) string {
 	b := Create()
 	res := zrun(func() {
 		m := b.Interface(target).Method(name)
+		if t[4] == "applyval" {
+			m.Apply(zvalue(t[5]))
+			return
+		}
 		cb := zcallback(ztoks(t[5]), ztoks(t[6]), false)
 		if t[4] == "apply" {
 			m.Apply(cb)
